@@ -516,6 +516,12 @@ class Explorer:
                         frontier.clear()
                         break
                     frontier.append(nxt)
+                for m in self.monitors:
+                    if hasattr(m, "after_all"):
+                        try:
+                            m.after_all(self, node, aev, succ)
+                        except Violation as v:
+                            self._record(v, node, aev, None)
                 if self.capped:
                     break
         return self.stats
